@@ -4,6 +4,8 @@
 mod c01;
 mod c02;
 mod c03;
+mod c05;
+mod sp;
 mod case;
 mod gen;
 mod real;
@@ -41,6 +43,14 @@ fn main() {
                 "C01" | "C16" => {
                     rep = Report::new(&prop, if prop == "C01" { "trees (all small shapes and random shapes up to hundreds of nodes) x arena layouts (API pre-order, API breadth-first, with removed slots, parsed) x field mixtures (plain / quoted / non-ASCII names, comments, absent / dyadic / decimal / arbitrary-bit-pattern lengths incl. -0, subnormals, 1e300, infinities); a case is one labelled tree; non-trivial = at least two nodes and at least one name or length" } else { "the same trees as C01, each written in all nine NewickFormat values and as Nexus; a case is one labelled tree; non-trivial as in C01" });
                     c01::run(&prop, tier == "thorough", seed, &driver, &mut rep);
+                }
+                "C05" => {
+                    rep = Report::new("C05", "leaf-labelled trees: every shape up to a node/leaf bound crossed with EVERY permutation of the leaf names, random trees to 80 leaves incl. the bitset block-boundary leaf counts 31,32,33,63,64,65, three arena layouts; a case is one labelled tree; non-trivial = at least one non-trivial split and at least one non-tip branch inducing a trivial split");
+                    c05::run_c05(tier == "thorough", seed, &driver, &mut rep);
+                }
+                "C06" | "C07" => {
+                    rep = Report::new(&prop, "ordered pairs of trees on a common leaf set (every ordered pair of leaf-labelled shapes up to a leaf bound, or a sample per first tree above 150 labelled shapes; random pairs to 40 leaves by subtree regrafting or independent shapes), both root styles, plus pairs with different leaf sets (C06) / missing lengths (C07); a case is one ordered pair; non-trivial = the trees differ in at least one split (C06) / any pair (C07)");
+                    c05::run_pairs(&prop, tier == "thorough", seed, &driver, &mut rep);
                 }
                 "C02" => {
                     rep = Report::new("C02", "strings fed to Tree::from_newick (corpus, every string up to a length bound over the token alphabet ( ) , ; : [ ] \" a 1 space, every short float lexeme, mutated valid Newick, random Unicode); a case is one string; non-trivial = contains at least one structural token");
